@@ -34,3 +34,22 @@ Lemma att_copy_sources_collide_lemma : forall p k r1 r2 m,
 Proof.
   intros p k r1 r2 m H. unfold att_job. simpl. rewrite H. simpl. rewrite a_has_ins. reflexivity.
 Qed.
+
+(* putting back the file specification a key already holds (get -> put back, or the same helper handed
+   to replaceEmbeddedFile twice) leaves the key in place with the same record *)
+Lemma att_put_same_keeps_lemma : forall k rid a b,
+  sm_at akey nn_scmp k a = Some (k, rid) ->
+  fst (att_step (APutSame k) (a, b)) = true /\
+  sm_at akey nn_scmp k (fst (snd (att_step (APutSame k) (a, b)))) = Some (k, rid) /\
+  forall rid2, sm_at akey nn_scmp k (fst (snd (att_step (APutSame k) (snd (att_step (APut k rid2) (a, b)))))) = Some (k, rid2).
+Proof.
+  intros k rid a b H. unfold att_step, a_has. rewrite H. simpl. repeat split.
+  - apply (sm_at_insert_same akey nn_scmp nn_scmp_antisym).
+  - intros rid2. rewrite (sm_at_insert_same akey nn_scmp nn_scmp_antisym). simpl.
+    apply (sm_at_insert_same akey nn_scmp nn_scmp_antisym).
+Qed.
+
+(* copying the attachments of B twice under the same prefix gives the same keys as copying once *)
+Lemma att_copy_twice_lookup_lemma : forall p k rid a,
+  sm_at akey nn_scmp (p ++ k) (att_copy_all p [(k, rid)] (att_copy_all p [(k, rid)] a)) = Some (p ++ k, rid).
+Proof. intros. simpl. apply (sm_at_insert_same akey nn_scmp nn_scmp_antisym). Qed.
